@@ -58,7 +58,7 @@ func C01(c *Ctx) {
 	r.Explanation = "(A6) nondeterminism / out-of-band-state taint over the repo call graph from all consensus roots (MsgServer methods, ante decorators of the chain, Begin/EndBlock, InitGenesis, ValidateBasic/GetSigners, invariants, migrations): no wall clock, math/rand or crypto/rand, environment/CPU queries, file or network I/O, goroutines, select, channel operations, unsafe conversions, architecture-dependent floating point, or iteration over a map is reachable, except by three value-flow exceptions that are themselves checked: " +
 		"a wall-clock value whose every use is an argument of cosmos-sdk/telemetry; a wall-clock read dominated by a predicate on a message field that the message's own ValidateBasic provably rejects (the pair is the obligation); a map range whose body has no store/event/bank effect and whose only escaping values are errors wrapping a loop-invariant sentinel. " +
 		"Out-of-band state: no assignment to a package-level variable outside init and no store through a keeper/decorator receiver is reachable, no package-level variable written outside init is read on a consensus path. Necessary conditions for C01; hash equality itself and the determinism/crash-atomicity of the SDK, IAVL and CometBFT are trusted."
-	r.Rules = []string{"A6.sources", "A6.wallclock-telemetry", "A6.wallclock-refuted", "A6.map-range", "A6.global-write", "A6.global-read", "A6.keeper-mutation", "A6.float"}
+	r.Rules = []string{"A6.sources", "A6.root-clean", "A6.wallclock-telemetry", "A6.wallclock-refuted", "A6.map-range", "A6.global-write", "A6.global-read", "A6.keeper-mutation", "A6.float"}
 	r.Trusted = []string{"cosmos-sdk baseapp / store / IAVL / CometBFT determinism and crash recovery", "baseapp, authz, gov and group call ValidateBasic on every (nested) message before dispatch", "telemetry does not feed back into state"}
 	r.NotDecided = []string{"equality of application hashes", "gas accounting equality", "restart/replay behaviour (governed by the multistore)"}
 
@@ -102,6 +102,31 @@ func C01(c *Ctx) {
 	for _, k := range []string{"forbidden", "globalwrite"} {
 		if counts[k] == 0 {
 			r.OK("A6.sources", "none|"+k, "", "no such site reachable from consensus roots")
+		}
+	}
+	// one obligation per consensus root, so that the evidence shows what was covered
+	isForbidden := func(e ir.Effect) bool {
+		switch e.Kind {
+		case "Rand", "Env", "IO", "Goroutine", "Select", "Chan", "Unsafe":
+			return true
+		case "GlobalWrite":
+			return !strings.HasSuffix(fn(e.Fn), ".init") && !strings.Contains(fn(e.Fn), ".init#")
+		}
+		return false
+	}
+	for _, kind := range consensusKinds {
+		for _, root := range w.Roots[kind] {
+			bad := ""
+			n := 0
+			for g := range w.Reachable([]*ssa.Function{root}) {
+				n++
+				for _, e := range w.EffectsOf(g) {
+					if isForbidden(e) {
+						bad = e.Kind + " in " + fn(g)
+					}
+				}
+			}
+			r.Require(bad == "", "A6.root-clean", w.SubRootKind(kind, root)+"|"+fn(root), w.Pos(root.Pos()), "no forbidden nondeterminism source or package-variable write is reachable from this consensus root", bad)
 		}
 	}
 	r.Analysed["wallclock_sites_on_consensus_paths"] = counts["wallclock"]
